@@ -5,7 +5,7 @@ import json, os, shutil, subprocess, sys, tempfile
 pid, m, needs = sys.argv[1], sys.argv[2], sys.argv[3]
 check = sys.argv[4] if len(sys.argv) > 4 else pid
 tier = sys.argv[5] if len(sys.argv) > 5 else "quick"
-src = f"/tmp/seed-{pid}-out"
+src = f"/tmp/{os.environ.get('SEEDP','seed')}-{pid}-out"
 dst = f"/verif/seeded/{pid}-{m}"
 os.makedirs(dst, exist_ok=True)
 shutil.copy(f"{src}/{m}.diff", f"{dst}/patch.diff")
@@ -16,18 +16,13 @@ ok = (confirm["clean_with_demo"]["failed"] == 0 and confirm["mutant_build_rc"] =
       confirm["mutant_with_demo"]["failed"] > 0 and confirm["mutant_existing_suite"]["failed"] == 0)
 if not ok:
     print("NOT CONFIRMED", confirm); sys.exit(1)
-# run the check against it
-subprocess.run(["git", "-C", "/repo", "apply", f"{dst}/patch.diff"], check=True)
-vd = tempfile.mkdtemp(prefix="mutverif-")
-shutil.copy("/verif/known_findings.json", vd)
-env = dict(os.environ, VERIF_DIR=vd)
-try:
-    r = subprocess.run(["./vcheck", check, "--tier", tier], cwd="/verif", env=env, capture_output=True, text=True)
-finally:
-    subprocess.run(["git", "-C", "/repo", "checkout", "--", "."], check=True)
-    subprocess.run(["git", "-C", "/repo", "clean", "-fdq", "-e", "target"], check=True)
+# run the check against it (on a scratch copy of /repo: tools/try_mutant.sh)
+r = subprocess.run(["/verif/tools/try_mutant.sh", f"{dst}/patch.diff", check, tier], cwd="/verif", capture_output=True, text=True)
 sigs = [l.strip()[len("signature: "):] for l in r.stdout.splitlines() if l.strip().startswith("signature: ")]
-shutil.rmtree(vd, ignore_errors=True)
+rc = [int(l[5:]) for l in r.stdout.splitlines() if l.startswith("exit=")]
+class R: pass
+r2 = R(); r2.returncode = rc[-1] if rc else 2
+r = r2
 meta = {
  "property": pid, "mutation": m,
  "needs_to_manifest": needs,
